@@ -324,6 +324,14 @@ func (s *Store[K, V]) GetWithSecodary(key K) (V, bool, error) {
 		if shard.closed {
 			return v, &NotFound{}
 		}
+		// the memory tier is the source of truth: while the key is in the map the
+		// secondary cache holds the same value or an older one and is not consulted
+		if exist, ok := shard.get(key); ok {
+			if expire := exist.expire.Load(); expire == 0 || expire > s.timerwheel.clock.NowNano() {
+				return exist.value, nil
+			}
+			return v, &NotFound{}
+		}
 		v, cost, expire, ok, err := s.secondaryCache.Get(key)
 		if err != nil {
 			return v, err
@@ -1256,8 +1264,16 @@ func (s *LoadingStore[K, V]) Get(ctx context.Context, key K) (V, error) {
 				return Loaded[V]{}, ErrCacheClosed
 			}
 
-			// first try get from secondary cache
-			if s.secondaryCache != nil {
+			// first try get from secondary cache, unless the key is in the map: the
+			// memory tier is the source of truth and the copy over there is the same
+			// value or an older one
+			exist, inMemory := shard.get(key)
+			if inMemory && s.secondaryCache != nil {
+				if expire := exist.expire.Load(); expire == 0 || expire > s.timerwheel.clock.NowNano() {
+					return Loaded[V]{Value: exist.value}, nil
+				}
+			}
+			if s.secondaryCache != nil && !inMemory {
 				vs, cost, expire, ok, err := s.secondaryCache.Get(key)
 				var notFound *NotFound
 				if err != nil && !errors.As(err, &notFound) {
